@@ -24,6 +24,10 @@ func init() {
 			"ExecutionEngine.Execute reaches planning only through the success edges of normalization (when needed), then of ValidateForSchema (err == nil ∧ Valid), and reaches the resolver only when planning reported no error; ValidateForSchema validates with DefaultOperationValidator and the validator reports Invalid whenever the report has errors. " +
 			"It does not decide accept ⇔ spec-valid for all documents (that is the rules' own logic).",
 		Mutants: []Mutant{
+			{Name: "a lookup by name returns whatever node was registered first, directive definitions included (reverts part of the F103 fix)", File: "v2/pkg/ast/index.go", Rule: "C04-R19", Key: "Index.FirstNodeByNameBytes/lookup-knows-directive-definitions",
+				Old: "\thash := xxhash.Sum64(name)\n\tnode, exists := i.nodes[hash]\n\tif !exists || len(node) == 0 {\n\t\treturn InvalidNode, false\n\t}\n\treturn firstNonDirectiveDefinition(node), true\n", New: "\thash := xxhash.Sum64(name)\n\tnode, exists := i.nodes[hash]\n\tif !exists || len(node) == 0 {\n\t\treturn InvalidNode, false\n\t}\n\treturn node[0], true\n"},
+			{Name: "the directives-defined rule looks the directive up with the type lookup (reverts part of the F103 fix)", File: "v2/pkg/astvalidation/operation_rule_directives_defined.go", Rule: "C04-R19", Key: "directivesAreDefinedVisitor.EnterDirective/directive-looked-up-among-directives",
+				Old: "d.definition.Index.FirstDirectiveDefinitionByNameBytes(directiveName)", New: "d.definition.Index.FirstNodeByNameBytes(directiveName)"},
 			{Name: "the items of a list literal are validated against the item type with its non-null stripped (reverts part of the F90 fix)", File: "v2/pkg/astvalidation/operation_rule_values.go", Rule: "C04-R18", Key: "valuesVisitor.valueSatisfiesListType/items-held-to-the-declared-item-type",
 				Old: "\t// the items are held to the item type as it is declared: null, or a nullable variable,\n\t// is not an item of an [item!] list ([], the empty list, is)\n", New: "\tif v.definition.Types[listItemType].TypeKind == ast.TypeKindNonNull {\n\t\tlistItemType = v.definition.Types[listItemType].OfType\n\t}\n"},
 			{Name: "a variable at an enum location is accepted without a look at its type (reverts part of the F90 fix)", File: "v2/pkg/astvalidation/operation_rule_values.go", Rule: "C04-R18", Key: "valuesVisitor.valueSatisfiesEnum/variable-arm-walks-the-type",
@@ -102,6 +106,7 @@ func runC04(r *fw.Run) {
 	defer c04NumberLiteralsAreReadWithTheirSign(r)
 	defer c04ResponseShapeTablesMeet(r)
 	defer c04VariablesAndItemsMeetTheDeclaredType(r)
+	defer c04NameLookupsRespectTheTwoNamespaces(r)
 	p := r.Prog
 	pk := p.Pkg("astvalidation")
 	if pk == nil {
@@ -1767,4 +1772,137 @@ func c04VariablesAndItemsMeetTheDeclaredType(r *fw.Run) {
 		})
 	}
 	r.Expect("C04-R18", "per-item checks of list literals in the Values visitor", nLoops, 1)
+}
+
+// c04NameLookupsRespectTheTwoNamespaces (R19): types and directives live in different namespaces — `directive @Role` next to
+// `type Role` is a valid schema — but the parser registers directive definitions in the document's name index under their
+// bare name. A lookup that returns "the first node of that name" without looking at its kind answers with the directive
+// where a type is meant (`{ role { a } }` rejected with an internal error) or with the type where a directive is meant
+// (`@Role` reported undefined), depending on the order of the two definitions (an information argument: the lookup cannot
+// tell them apart without reading the kind). Rule: (a) every method of ast.Index that returns one ast.Node mentions
+// NodeKindDirectiveDefinition, directly or through a function of the package it calls; (b) where a validation rule compares
+// the kind of a node obtained from an Index lookup with NodeKindDirectiveDefinition — it wants a directive — the lookup it
+// called returns a node only under an equality test with that kind.
+func c04NameLookupsRespectTheTwoNamespaces(r *fw.Run) {
+	p := r.Prog
+	r.Rule("C04-R19", "every ast.Index method that returns one node reads NodeKindDirectiveDefinition (directly or through a helper); a validation rule that wants a directive definition looks it up with a method that selects directive definitions")
+	mentionsDD := func(fi *fw.FuncInfo) (mentions, selects bool) {
+		info := fi.Info()
+		fw.WalkAll(fi.Decl.Body, func(nd ast.Node) bool {
+			if b, ok := nd.(*ast.BinaryExpr); ok {
+				for _, e := range []ast.Expr{b.X, b.Y} {
+					if k := fw.ConstObj(info, e); k != nil && k.Name() == "NodeKindDirectiveDefinition" {
+						mentions = true
+						if b.Op == token.EQL {
+							selects = true
+						}
+					}
+				}
+			}
+			if cc, ok := nd.(*ast.CaseClause); ok {
+				for _, e := range cc.List {
+					if k := fw.ConstObj(info, e); k != nil && k.Name() == "NodeKindDirectiveDefinition" {
+						mentions = true
+					}
+				}
+			}
+			return true
+		})
+		return
+	}
+	nA := 0
+	for _, fi := range p.Funcs("ast") {
+		if fw.RecvNameOfFunc(fi.Obj) != "Index" {
+			continue
+		}
+		sig := fi.Obj.Type().(*types.Signature)
+		if sig.Results().Len() != 2 {
+			continue
+		}
+		nt, ok := sig.Results().At(0).Type().(*types.Named)
+		if !ok || nt.Obj().Name() != "Node" || !types.Identical(sig.Results().At(1).Type(), types.Typ[types.Bool]) {
+			continue
+		}
+		nA++
+		okA, _ := mentionsDD(fi)
+		if !okA {
+			info := fi.Info()
+			fw.WalkAll(fi.Decl.Body, func(nd ast.Node) bool {
+				if c, isC := nd.(*ast.CallExpr); isC {
+					if g := p.FuncOf(fw.Callee(info, c)); g != nil && g.Obj.Pkg() == fi.Obj.Pkg() {
+						if m, _ := mentionsDD(g); m {
+							okA = true
+						}
+					}
+				}
+				return true
+			})
+		}
+		r.Check(okA, "C04-R19", fi.Name()+"/lookup-knows-directive-definitions", p.Pos(fi.Decl.Pos()), fi.Name()+" reads NodeKindDirectiveDefinition before it answers with one node",
+			fi.Name()+" answers with a node registered under the name without looking whether it is a directive definition: `directive @Role on FIELD  type Role { a: String }  type Query { role: Role }` — `{ role { a } }` is rejected with `internal: … field: a selection on type: Role unhandled` because the lookup of type Role found the directive; with the two definitions in the other order `{ role @Role { a } }` is rejected with `directive: Role undefined`")
+	}
+	r.Expect("C04-R19", "ast.Index methods that return one node", nA, 3)
+	nB := 0
+	for _, fi := range p.Funcs("astvalidation") {
+		info := fi.Info()
+		from := map[types.Object]*ast.CallExpr{}
+		fw.WalkAll(fi.Decl.Body, func(nd ast.Node) bool {
+			as, ok := nd.(*ast.AssignStmt)
+			if !ok || len(as.Rhs) != 1 || len(as.Lhs) != 2 {
+				return true
+			}
+			c, isC := ast.Unparen(as.Rhs[0]).(*ast.CallExpr)
+			if !isC {
+				return true
+			}
+			if fn := fw.Callee(info, c); fn == nil || fw.RecvNameOfFunc(fn) != "Index" {
+				return true
+			}
+			if id, isID := as.Lhs[0].(*ast.Ident); isID {
+				from[info.ObjectOf(id)] = c
+			}
+			return true
+		})
+		if len(from) == 0 {
+			continue
+		}
+		fw.WalkAll(fi.Decl.Body, func(nd ast.Node) bool {
+			b, ok := nd.(*ast.BinaryExpr)
+			if !ok || (b.Op != token.EQL && b.Op != token.NEQ) {
+				return true
+			}
+			for i, e := range []ast.Expr{b.X, b.Y} {
+				k := fw.ConstObj(info, e)
+				if k == nil || k.Name() != "NodeKindDirectiveDefinition" {
+					continue
+				}
+				other := b.Y
+				if i == 1 {
+					other = b.X
+				}
+				sel, isSel := ast.Unparen(other).(*ast.SelectorExpr)
+				if !isSel || sel.Sel.Name != "Kind" {
+					continue
+				}
+				id, isID := ast.Unparen(sel.X).(*ast.Ident)
+				if !isID {
+					continue
+				}
+				call := from[info.Uses[id]]
+				if call == nil {
+					continue
+				}
+				nB++
+				g := p.Func("ast", fw.FuncName(fw.Callee(info, call)))
+				selects := false
+				if g != nil {
+					_, selects = mentionsDD(g)
+				}
+				r.Check(selects, "C04-R19", fi.Name()+"/directive-looked-up-among-directives", p.Pos(call.Pos()), fi.Name()+" looks the directive definition up with a method that selects directive definitions",
+					fi.Name()+" wants a directive definition (it compares the node's kind with NodeKindDirectiveDefinition) but asks a lookup that does not select by that kind: with `type Role` declared before `directive @Role`, `{ role @Role { a } }` is rejected with `directive: Role undefined`")
+			}
+			return true
+		})
+	}
+	r.Expect("C04-R19", "validation rules that want a directive definition from the index", nB, 2)
 }
